@@ -502,6 +502,8 @@ func c03Operators(c *Ctx, g *load.G) {
 		sort.Strings(bad)
 		r.Check(len(bad) == 0, "C03-d", construct, "", g.Where(fd.Pos()), fmt.Sprintf("%v", sp.want), strings.Join(bad, "; "))
 	}
+	// flag mapping: the i suffix alone decides IgnoreCase, ^ alone decides Inverted
+	flagMapping(c, g, "C03-d")
 	// recovery chain
 	fd := load.FuncDecl(root, "current", "onRecoveryExpr1")
 	if fd == nil {
@@ -517,4 +519,71 @@ func c03Operators(c *Ctx, g *load.G) {
 	})
 	ok := strings.Contains(txt, "recover=expr.(ast.Expression);") && strings.Contains(txt, "r.Expr=recover;") && strings.Contains(txt, "r.RecoverExpr=sl.([]any)[7].(ast.Expression);") && strings.Contains(txt, "r.Labels=sl.([]any)[3].([]ast.FailureLabel);") && strings.Contains(txt, "recover=r;")
 	r.Check(ok, "C03-d", "A.pigeon.go:RecoveryExpr:left-nested-chain", "", g.Where(fd.Pos()), "each //{…} wraps the chain built so far as its guarded expression", "assignments are ["+txt+"]")
+}
+
+// flagMapping: the ignore-case suffix and the inversion prefix are mapped to the node flags unconditionally, in the
+// generated front-end, in the bootstrap front-end and in the class decoder.
+func flagMapping(c *Ctx, g *load.G, rule string) {
+	r := c.R
+	root := g.Pkg("")
+	// generated front-end: <node>.IgnoreCase = <label of "i"?> != nil
+	if fd := load.FuncDecl(root, "current", "onLitMatcher1"); fd != nil {
+		var params []string
+		for _, f := range fd.Type.Params.List {
+			for _, nm := range f.Names {
+				params = append(params, nm.Name)
+			}
+		}
+		var got []string
+		ast.Inspect(fd.Body, func(n ast.Node) bool {
+			if as, ok := n.(*ast.AssignStmt); ok && strings.HasSuffix(nospace(as.Lhs[0]), ".IgnoreCase") {
+				got = append(got, nospace(as.Rhs[0]))
+			}
+			return true
+		})
+		ok := len(got) == 1 && len(params) == 2 && got[0] == params[1]+"!=nil"
+		r.Check(ok, rule, "A.pigeon.go:LitMatcher:ignore-case-suffix", "", g.Where(fd.Pos()), "IgnoreCase = (the i suffix is present)", fmt.Sprintf("IgnoreCase is assigned %v: the flag no longer follows the i suffix alone (the bootstrap front-end sets it whenever the suffix is present)", got))
+	} else {
+		r.Unk(rule, "A.pigeon.go:LitMatcher:ignore-case-suffix", "", "pigeon.go", "action onLitMatcher1 not found")
+	}
+	// bootstrap front-end: ignore := strings.HasSuffix(p.tok.lit, "i"); lit.IgnoreCase = ignore
+	if bp := g.Pkg("bootstrap"); bp != nil {
+		fd := load.FuncDecl(bp, "Parser", "primaryExpr")
+		okB := false
+		detail := "primaryExpr not found"
+		if fd != nil {
+			defs := map[string]string{}
+			ast.Inspect(fd.Body, func(n ast.Node) bool {
+				if as, ok := n.(*ast.AssignStmt); ok && len(as.Lhs) == 1 && len(as.Rhs) == 1 {
+					defs[nospace(as.Lhs[0])] = nospace(as.Rhs[0])
+				}
+				return true
+			})
+			ast.Inspect(fd.Body, func(n ast.Node) bool {
+				if as, ok := n.(*ast.AssignStmt); ok && strings.HasSuffix(nospace(as.Lhs[0]), ".IgnoreCase") {
+					src := nospace(as.Rhs[0])
+					detail = src + " (:= " + defs[src] + ")"
+					okB = defs[src] == `strings.HasSuffix(p.tok.lit,"i")`
+				}
+				return true
+			})
+		}
+		r.Check(okB, rule, "A.bootstrap/parser.go:LitMatcher:ignore-case-suffix", "", "bootstrap/parser.go", "IgnoreCase = (the literal token ends in i)", "IgnoreCase is assigned "+detail)
+	}
+	// class decoder
+	pf := load.FuncDecl(g.Pkg("ast"), "CharClassMatcher", "parse")
+	if pf != nil {
+		m := map[string]string{}
+		ast.Inspect(pf.Body, func(n ast.Node) bool {
+			if as, ok := n.(*ast.AssignStmt); ok {
+				l := nospace(as.Lhs[0])
+				if l == "c.IgnoreCase" || l == "c.Inverted" {
+					m[l] = nospace(as.Rhs[0]) + " under [" + strings.Join(guardsOf(pf.Body, as.Pos()), ";") + "]"
+				}
+			}
+			return true
+		})
+		ok := m["c.IgnoreCase"] == `strings.HasSuffix(raw,"i") under []` && m["c.Inverted"] == "raw[0]=='^' under []"
+		r.Check(ok, rule, "G.ast.CharClassMatcher.parse:i-suffix-and-^-prefix", "", g.Where(pf.Pos()), "IgnoreCase = has suffix i; Inverted = starts with ^ (after removing the brackets)", fmt.Sprintf("flags are assigned %v", m))
+	}
 }
